@@ -251,8 +251,8 @@ class AsyncSocket(base_socket.BaseSocket):
             if p is None:
                 # connection closed by client
                 break
-            pkt = packet.Packet(encoded_packet=p)
             try:
+                pkt = packet.Packet(encoded_packet=p)
                 await self.receive(pkt)
             except exceptions.UnknownPacketError:  # pragma: no cover
                 pass
@@ -263,6 +263,7 @@ class AsyncSocket(base_socket.BaseSocket):
                 # if we get an unexpected exception we log the error and exit
                 # the connection properly
                 self.server.logger.exception('Unknown receive error')
+                break
 
         await self.queue.put(None)  # unlock the writer task so it can exit
         await asyncio.wait_for(writer_task, timeout=None)
